@@ -5,6 +5,7 @@ CONSTANTS
   Slots = 1
   MaxNodes = 4
   MaxCache = 9
+  Cnfs <- NoCnfs
   Ops <- IteCond
   GetIgnoresCompl = FALSE
   GetIgnoresKey = FALSE
